@@ -277,18 +277,31 @@ def check_backward(w, rec, st, how):
                 w.violation("I3-faulted-wrong-value", rec, "gradient after a swallowed fault: " + m)
         return
     inv = "I5-recovery" if rec.get("retry") else "I3-history"
+    if how == "direct":
+        inv = "D2-converted-vs-constructed"
     if rec["outcome"] != oc2:
-        w.violation(inv, rec, "backward outcome %s, reference %s (%s)" % (
-            rec["outcome"], oc2, rec.get("exc_msg", "")))
+        w.violation(inv, rec, "backward outcome %s, %s %s (%s)" % (
+            rec["outcome"], "reference" if how == "recipe" else
+            "through a module constructed in that precision:", oc2, rec.get("exc_msg", "")))
         return
     if oc2 == "ok":
-        st["compared_bitwise"] += 1
         if how == "recipe":
+            st["compared_bitwise"] += 1
             m = compare(rec["out_snap"], ref_snap, "bitwise")
         else:
-            m = None
+            narrowed = _narrowed(fwd["recipe"], expected_dtype(fwd["recipe"])) or (
+                fwd["kind"] == "roundtrip" and _narrowed(fwd["recipe2"], expected_dtype(fwd["recipe2"])))
+            if narrowed:
+                st["compared_tol"] += 1
+                m = compare(rec["out_snap"], ref_snap, "tol", 1e-5,
+                            scale=max(max_abs(ref_snap), 1e-30))
+            else:
+                st["compared_bitwise"] += 1
+                m = compare(rec["out_snap"], ref_snap, "bitwise")
         if m:
-            w.violation(inv, rec, "gradient differs from the history-free reference: " + m)
+            w.violation(inv, rec, "gradient differs from the %s: %s" % (
+                "history-free reference" if how == "recipe" else
+                "gradient through a module constructed in that precision", m))
 
 
 def run_canaries(w, st):
@@ -348,6 +361,10 @@ def run_canaries(w, st):
 
 def check_c16(w, rec, st):
     kind = rec["kind"]
+    if kind == "backward" and not rec.get("faulted"):
+        # clause (ii) in the backward direction: gradients through a converted
+        # module vs. a module constructed in that precision
+        return check_backward(w, rec, st, "direct")
     if kind not in ("call", "inverse", "roundtrip") or rec.get("faulted"):
         return
     path = dtype_path(rec["recipe"])
